@@ -27,7 +27,7 @@ From Verif.Base Require Import Bytes.
 From Verif.Codec Require Import Packets Decode Encode.
 From Verif.Gateway Require Import GwTypes GwStep GwWf.
 From Verif.Client Require Import ClTypes ClStep.
-From Verif.System Require Import Compose ComposeProofs ComposeProofs2_aux ComposeProofs2 ComposeProofs3_aux ComposeProofs3 ComposeLoss ComposeLoss2 ComposeSleep ComposeSleepQ1.
+From Verif.System Require Import Compose ComposeProofs ComposeProofs2_aux ComposeProofs2 ComposeProofs3_aux ComposeProofs3 ComposeLoss ComposeLoss2 ComposeSleep ComposeSleepQ1 ComposeSleepQ2.
 From Verif.Checkers Require Import ChkCodec ChkE2E.
 Open Scope N_scope.
 
@@ -190,6 +190,40 @@ Theorem C26_sleep_cycle_with_a_qos1_message :
       y_c2g_k y' = (y_c2g_k y + 3)%nat /\ y_g2c_k y' = (y_g2c_k y + 3)%nat.
 Proof. exact C26_sleep_cycle_q1_message. Qed.
 Print Assumptions C26_sleep_cycle_with_a_qos1_message.
+
+(* A sleep cycle with a QoS 2 broker message (sleep shorter than the gateway's RetryDelay, time advanced to less
+   than one RetryDelay past the wake-up): what the composed model - and the code - really do.  At the wake-up the
+   PUBLISH is flushed, the client's PUBREC is relayed to the broker, but the broker's PUBREL meets a session that is
+   asleep again (C11) and is QUEUED: in this cycle there is no handler invocation and no PUBCOMP; the exchange is
+   held (HeldQ2: client awake with the PUBLISH remembered, gateway asleep with the PUBREL in its buffer and the retry
+   timer running).  It completes - handler once, PUBCOMP - at the NEXT wake-up (ComposeSleepQ2.
+   sleep_q2_second_cycle_completes) and never without one (sleep_q2_no_second_wakeup): DESIGN.md section 11. *)
+Theorem C26_sleep_cycle_with_a_qos2_message_holds_the_PUBREL :
+  forall cfg y subs id ms s dup retain mid payload d,
+    QuietS cfg y subs -> 1000 <= ms -> ms / 1000 < 65536 ->
+    gw_keepalive (y_gw y) = 0 \/ ms / 1000 <= gw_keepalive (y_gw y) ->
+    ms < retry_delay (e_gw cfg) ->
+    In s subs -> 1 <= mid < 65536 -> okb payload = true -> okb (k_cid (e_cl cfg)) = true ->
+    (forall i, (i <= 2)%nat -> nth_fault (e_c2g cfg) (y_c2g_k y + i) = FDeliver) ->
+    (forall i, (i <= 2)%nat -> nth_fault (e_g2c cfg) (y_g2c_k y + i) = FDeliver) ->
+    ms <= d -> d < ms + retry_delay (e_gw cfg) ->
+    let t := gw_now (y_gw y) in
+    let m := MqPublish dup 2 retain (sub_topic s) mid payload in
+    exists y', sys_run cfg y [SCall id (ASleep ms); SBpub m; SAdv d] =
+      ([[SoC2G t FDeliver (pack (Disconnect (ms / 1000))); SoG2C t FDeliver (pack (Disconnect 0))];
+        [SoBS t m];
+        [SoC2G (t + ms) FDeliver (pack (Pingreq (k_cid (e_cl cfg))));
+         SoG2C (t + ms) FDeliver (pack (pub2_sn dup retain (sub_topic s) mid payload));
+         SoG2C (t + ms) FDeliver (pack Pingresp);
+         SoC2G (t + ms) FDeliver (pack (Pubrec mid));
+         SoRet (t + ms) id ROk;
+         SoBR (t + ms) (MqPubrec mid);
+         SoBS (t + ms) (MqPubrel mid)]], y') /\
+      HeldQ2 cfg y' subs (pub2_sn dup retain (sub_topic s) mid payload) mid (t + ms + retry_delay (e_gw cfg)) /\
+      gw_now (y_gw y') = t + d /\ y_br y' = y_br y /\
+      y_c2g_k y' = (y_c2g_k y + 3)%nat /\ y_g2c_k y' = (y_g2c_k y + 3)%nat.
+Proof. exact C26_sleep_cycle_q2_message. Qed.
+Print Assumptions C26_sleep_cycle_with_a_qos2_message_holds_the_PUBREL.
 
 (* the refutation, as a history of the end-to-end monitor: lossless link, the subscription in place,
    two broker messages back to back on one new topic -> clause (26,4); one after the other -> none *)
